@@ -31,7 +31,7 @@ Local Hint Extern 0 (BlockAlg _) =>
 
 Definition H0 : T := fun n => if is_zero n then mdiag D E else mzero D.
 Definition sylv (y : T) : T := fun n p q => y n p q * inv (E p - E q).
-Definition Rp (x : T) : T := x - Sel x.
+Local Notation Rp x := (x - Sel x) (only parsing).
 
 Lemma H0_const a : is_zero a = false -> H0 a == 0.
 Proof. intros Z. unfold H0. rewrite Z. reflexivity. Qed.
@@ -113,7 +113,7 @@ Hypothesis inv_spec : forall p q, (p < D)%nat -> (q < D)%nat -> keep p q = false
 
 Theorem sylv_spec y : Rp (H0 * sylv y - sylv y * H0) == Rp y.
 Proof.
-  intros n Hn p q Hp Hq. unfold Rp.
+  intros n Hn p q Hp Hq.
   pose proof (comm_H0_entry (sylv y) n Hp Hq) as C.
   set (X := H0 * sylv y - sylv y * H0) in *.
   rewrite !sub_entry, !Sel_entry. destruct (keep p q) eqn:K.
